@@ -1,8 +1,23 @@
 import ObiVerif.Model.WriteErr
+import ObiVerif.Model.WriteDev
+import ObiVerif.Model.WriteProc
 import ObiVerif.Driver.Util
-/-! line protocol for C18: `<writer> gz=<0|1> k=<limit> cf=<0|1> zlen=<n> own=<0|1> <order>:<nseq>:<hex text> …` -/
+/-! line protocol for C18
+
+* `<writer> gz=<0|1> k=<limit> cf=<0|1> zlen=<n> own=<0|1> <order>:<nseq>:<hex text> …` one writer over the
+  sink failing after `k` bytes; result `ok|fatal got=<bytes the sink holds>`; compressed: the model runs
+  `bufio` over the abstract pgzip writer with a codec of the measured stream length `zlen`
+* `dev <writer> beh=<short:m|temp:i|partial:i:n|errfull:i> cf=<0|1> own=<0|1> chunks…` one writer over a scripted
+  `io.Writer` (short writes with nil error, temporary errors)
+* `multi <writer> gz=<0|1> own=<0|1> / k=<limit> cf=<0|1> zlen=<n> chunks… / k=… …` several writers in one
+  process; result `exit0|exit1` from the process model
+* `disp <writer> gz=<0|1> own=1 / k=… cf=… zlen=… 0:<nseq>:<text of the file> / …` the files written by the real
+  `WriterDispatcher`; same model as `multi`
+* `cmd <command> <scenario> …` a real command in a subprocess; `nofault…` scenarios must exit 0, all the others
+  non-zero (process model with one failing writer)
+-/
 namespace ObiVerif.Driver.C18
-open ObiVerif.WriteErr ObiVerif.Driver
+open ObiVerif.WriteErr ObiVerif.WriteProc ObiVerif.Driver
 
 def parseChunk (s : String) : Option (Nat × Bytes) :=
   match s.splitOn ":" with
@@ -20,22 +35,90 @@ def showOut (r : Outcome × Bytes) : String :=
   | .ok => s!"ok got={r.2.length}"
   | .fatal => s!"fatal got={r.2.length}"
 
+def isRaw (w : String) : Bool := w = "fasta" || w = "fastq" || w = "csv"
+
+/-- one writer over the failing sink -/
+def one (w : String) (gz k cf zlen own : Nat) (arr : List (Nat × Bytes)) : Option (Outcome × Bytes) :=
+  if gz = 1 then
+    -- error visibility schedule: every other check sees a pushed error (any schedule gives the same result)
+    let rep : Nat → Bool := fun i => i % 2 = 1
+    if isRaw w then some (writeRawZ (lenCodec zlen) rep 4096 k (cf = 1) (own = 1) arr)
+    else if w = "json" then some (writeJsonZ (lenCodec zlen) rep 4096 k (cf = 1) (own = 1) arr)
+    else none
+  else if isRaw w then some (writeRawO 4096 k (cf = 1) (own = 1) arr)
+  else if w = "json" then some (writeJsonO 4096 k (cf = 1) (own = 1) arr)
+  else none
+
+def parseBeh (s : String) : Option (Nat → Nat → Nat → Nat × Bool) :=
+  match s.splitOn ":" with
+  | ["beh=short", m] => do
+    let m ← m.toNat?
+    pure fun _ _ l => (min l m, false)
+  | ["beh=temp", i] => do
+    let i ← i.toNat?
+    pure fun c _ l => if c = i then (0, true) else (l, false)
+  | ["beh=partial", i, n] => do
+    let i ← i.toNat?
+    let n ← n.toNat?
+    pure fun c _ l => if c = i then (min l n, true) else (l, false)
+  | ["beh=errfull", i] => do
+    let i ← i.toNat?
+    pure fun c _ l => if c = i then (l, true) else (l, false)
+  | _ => none
+
+/-- split the fields of a `multi` line at the `/` separators -/
+def splitSlash (l : List String) : List (List String) :=
+  l.foldr (fun x acc => if x = "/" then [] :: acc else match acc with
+    | [] => [[x]]
+    | h :: t => (x :: h) :: t) [[]]
+
+def runMulti (w : String) (gz own : Nat) (files : List (List String)) : String :=
+  let rs := files.mapM fun f =>
+    match f with
+    | k :: cf :: zl :: rest =>
+      match kv "k" k, kv "cf" cf, kv "zlen" zl, rest.mapM parseChunk with
+      | some k, some cf, some zlen, some arr => one w gz k cf zlen own arr
+      | _, _, _, _ => none
+    | _ => none
+  match rs with
+  | none => "bad-op"
+  | some rs =>
+    match exitOf (rs.map fun r => r.1 == .fatal) (canon rs.length) with
+    | some 0 => "exit0"
+    | some _ => "exit1"
+    | none => "no-exit"
+
 def run (line : String) : String :=
   match words line with
-  | "cmd" :: _ => "exit-nonzero"   -- a command whose output cannot be written must fail
+  | "cmd" :: _ :: sc :: _ =>
+    -- a command one of whose outputs cannot be written completely must fail
+    let fails := [!(sc.startsWith "nofault")]
+    match exitOf fails (canon 1) with
+    | some 0 => "exit0"
+    | some _ => "exit-nonzero"
+    | none => "no-exit"
+  | "dev" :: w :: beh :: cf :: own :: rest =>
+    match parseBeh beh, kv "cf" cf, kv "own" own, rest.mapM parseChunk with
+    | some beh, some cf, some own, some arr =>
+      if isRaw w then showOut (writeRawDev 4096 beh (cf = 1) (own = 1) arr)
+      else if w = "json" then showOut (writeJsonDev 4096 beh (cf = 1) (own = 1) arr)
+      else "bad-op"
+    | _, _, _, _ => "bad-op"
+  | "disp" :: w :: gz :: own :: "/" :: rest =>
+    -- the files of `WriterDispatcher`: same process model, one writer per file
+    match kv "gz" gz, kv "own" own with
+    | some gz, some own => runMulti w gz own (splitSlash rest)
+    | _, _ => "bad-op"
+  | "multi" :: w :: gz :: own :: "/" :: rest =>
+    match kv "gz" gz, kv "own" own with
+    | some gz, some own => runMulti w gz own (splitSlash rest)
+    | _, _ => "bad-op"
   | w :: gz :: k :: cf :: zl :: own :: rest =>
     match kv "gz" gz, kv "k" k, kv "cf" cf, kv "zlen" zl, kv "own" own, rest.mapM parseChunk with
-    | some gz, some k, some cf0, some zlen, some own, some arr =>
-      -- a writer that does not own its output (OptionDontCloseFile: stdout) never calls Close on it,
-      -- so a failing Close of the sink cannot be met; the final flush still is
-      let cf := if own = 0 then 0 else cf0
-      if gz = 1 then
-        -- compressed output: the codec is not modelled; the result fits the output iff the limit
-        -- is at least the compressed size measured on a non failing run
-        if k ≥ zlen && cf = 0 then "ok" else "fatal"
-      else if w = "fasta" || w = "fastq" || w = "csv" then showOut (writeRaw 4096 k (cf = 1) arr)
-      else if w = "json" then showOut (writeJson 4096 k (cf = 1) arr)
-      else "bad-op"
+    | some gz, some k, some cf, some zlen, some own, some arr =>
+      match one w gz k cf zlen own arr with
+      | some r => showOut r
+      | none => "bad-op"
     | _, _, _, _, _, _ => "bad-op"
   | _ => "bad-op"
 
